@@ -1197,19 +1197,52 @@ class Symbolic(
     Returns:
       Formalized value that is ready for insertion as members.
     """
+    value = self._copy_if_owned_elsewhere(key, value)
+    if isinstance(value, TopologyAware):
+      value.sym_setpath(utils.KeyPath(key, self.sym_path))
+      value.sym_setparent(self._sym_parent_for_children())
+    return value
+
+  def _copy_if_owned_elsewhere(self, key: Union[str, int], value: Any) -> Any:
+    """Returns a copy of a symbolic value that already has another place.
+
+    This prevents a symbolic object from having multiple parents. Containers
+    call it before validating an incoming value against their value spec too,
+    as validation binds the spec to the value (and fills in defaults): that
+    must happen to the copy, not to the object that stays where it is.
+
+    Args:
+      key: Key (or index) under which the value will be placed.
+      value: The incoming value.
+
+    Returns:
+      `value`, or its copy if it is a symbolic object placed somewhere else.
+    """
     if isinstance(value, Symbolic):
-      # NOTE(daiyip): make a copy of symbolic object if it belongs to another
-      # object tree, this prevents it from having multiple parents. See
-      # List._formalized_value for similar logic.
       root_path = utils.KeyPath(key, self.sym_path)
       if (value.sym_parent is not None and
           (value.sym_parent is not self
            or root_path != value.sym_path)):
         value = value.clone()
+    return value
 
-    if isinstance(value, TopologyAware):
-      value.sym_setpath(utils.KeyPath(key, self.sym_path))
-      value.sym_setparent(self._sym_parent_for_children())
+  def _copy_container_owned_elsewhere(
+      self, key: Union[str, int], value: Any) -> Any:
+    """Copies a Dict/List that has another place, before it is validated.
+
+    Validating a `pg.Dict`/`pg.List` against a value spec binds the spec to it
+    and fills in default values. When the value stays where it is (the
+    container receives a copy of it), that must happen to the copy.
+
+    Args:
+      key: Key (or index) under which the value will be placed.
+      value: The incoming value.
+
+    Returns:
+      `value`, or its copy if it is a Dict/List placed somewhere else.
+    """
+    if isinstance(value, (Symbolic.DictType, Symbolic.ListType)):
+      return self._copy_if_owned_elsewhere(key, value)
     return value
 
   def _sym_parent_for_children(self) -> Optional['Symbolic']:
